@@ -1,6 +1,7 @@
 package main
 
 import (
+	"crypto/sha256"
 	"runtime"
 	"strings"
 )
@@ -38,4 +39,9 @@ func minInt(a, b int) int {
 		return a
 	}
 	return b
+}
+
+func sha256Sum(s string) []byte {
+	h := sha256.Sum256([]byte(s))
+	return h[:8]
 }
